@@ -472,6 +472,7 @@ type ruleResult struct {
 	round    int
 	recent   []bool // per metric: its data changed less than 15 simulated minutes before this round
 	now      time.Time
+	end      time.Time // when the check of this rule returned
 	idx      int
 	problems []checks.Problem
 }
@@ -674,7 +675,7 @@ func run(t *testing.T, sc Scenario, record bool) *detsim.Outcome {
 						}
 						s.Mix(fmt.Sprintf("%d/%s#%d:%s", round, name, i, sb.String()))
 						mu.Lock()
-						results = append(results, ruleResult{round: round, recent: recent, now: roundNow, idx: i, problems: problems})
+						results = append(results, ruleResult{round: round, recent: recent, now: roundNow, end: time.Now(), idx: i, problems: problems})
 						mu.Unlock()
 					}
 				}()
@@ -821,6 +822,19 @@ func judge(sc *Scenario, entries []discovery.Entry, results []ruleResult, be *si
 				panic(err)
 			}
 			presentNow := len(vec) > 0 && vec[0].F > 0
+			if presentNow && rr.end.After(now) {
+				// "currently" has to cover the whole time pint was asking: a metric that stopped a few minutes
+				// before the round is still returned at its start (five-minute look-back) and no longer when a
+				// slow check gets to it
+				vecEnd, err := be.Eval(fmt.Sprintf("count(%s)", sel.text), rr.end)
+				if err != nil {
+					panic(err)
+				}
+				if !(len(vecEnd) > 0 && vecEnd[0].F > 0) {
+					out.Probes["selector_went_stale_during_check"]++
+					continue
+				}
+			}
 			if presentNow {
 				out.Probes["selector_present_now"]++
 				for _, p := range attributed {
